@@ -73,23 +73,23 @@ func Harness_K4_Lists() {
 	c.config = cfg
 	gotV := c.GetValidators()
 	if v, ok := va[c.path]; ok {
-		vrtAssert("C10/K4/validators-by-path", sameList(gotV, v))
+		vrtAssert("C10+C11/K4/validators-by-path", sameList(gotV, v))
 	} else if v, ok := va[c.typeName]; ok {
-		vrtAssert("C10/K4/validators-by-key", sameList(gotV, v))
+		vrtAssert("C10+C11/K4/validators-by-key", sameList(gotV, v))
 	} else {
-		vrtAssert("C10/K4/validators-none", len(gotV) == 0)
+		vrtAssert("C10+C11/K4/validators-none", len(gotV) == 0)
 	}
 	_, c1 := co[c.typeName]
 	_, c2 := co[c.path]
 	gotP := c.GetPlanModifiers()
 	if v, ok := pm[c.path]; ok {
-		vrtAssert("C10/K4/plan-modifiers-by-path", sameList(gotP, v))
+		vrtAssert("C10+C11/K4/plan-modifiers-by-path", sameList(gotP, v))
 	} else if v, ok := pm[c.typeName]; ok {
-		vrtAssert("C10/K4/plan-modifiers-by-key", sameList(gotP, v))
+		vrtAssert("C10+C11/K4/plan-modifiers-by-key", sameList(gotP, v))
 	} else if cfg.UseStateForUnknownByDefault && (c1 || c2) {
-		vrtAssert("C10/K4/use-state-for-unknown-default", len(gotP) == 1 && gotP[0] == "github.com/hashicorp/terraform-plugin-framework/tfsdk.UseStateForUnknown()")
+		vrtAssert("C10+C11/K4/use-state-for-unknown-default", len(gotP) == 1 && gotP[0] == "github.com/hashicorp/terraform-plugin-framework/tfsdk.UseStateForUnknown()")
 	} else {
-		vrtAssert("C10/K4/plan-modifiers-none", len(gotP) == 0)
+		vrtAssert("C10+C11/K4/plan-modifiers-none", len(gotP) == 0)
 	}
 	vrtReach("K4/lists/end")
 }
